@@ -83,6 +83,10 @@ EXTRA_TEXT = {
     "C12": " Also with the memo warm and the flag then switched off; what a result shares with internal state is read before the next call is made.",
     "C13": " FILTER-LIFETIME: a dropped filter's address handed on to the next, well-behaved one (closures, unhashable callable objects).",
     "C15": " Variants: network_kwargs directed=True, user attributes named like class-level names of the link classes, pyvis' own assertions compiled away (python -O).",
+    "C14": " Scenario: a title formatted from an attribute whose value is callable.",
+    "C17": " Many classes: a live mapping survives n other semi-singleton classes being used, n from the size harvest (a bare lru_cache counts as 128).",
+    "C18": " Scenario: a class of the same name (also a subclass named like its base) created after the first construction.",
+    "C19": " I19-REFUSAL: objects of user subclasses whose own setters raise while locked - I19 is read through the getters after every such assignment, raised or not.",
     "C20": " randgraph is also evaluated at the counts the tree itself names (size constants harvested from its source). REPRODUCIBLE: seed, build, seed again, build again in one interpreter state with the random module modelled as one stream (randint, sample, choice, getrandbits draw from it).",
 }
 
